@@ -249,7 +249,21 @@ func (g *typeGen) structType(t *rapid.T, depth int) TypeDesc {
 		if g.cfg.Tags {
 			f.Tag = g.tag(t, &f.Type)
 		}
-		if g.cfg.Pool && g.cfg.Tags && rapid.IntRange(0, 9).Draw(t, "zeroer") == 0 {
+		if g.cfg.Tags && rapid.IntRange(0, 9).Draw(t, "optptr") == 0 {
+			// optional scalars: pointer (chains) to numbers/bools/structs with
+			// omitempty — dropped when nil although the base type is never "empty"
+			base := g.scalar(t)
+			if rapid.IntRange(0, 4).Draw(t, "optptrs") == 0 {
+				base = TypeDesc{Kind: "struct", Fields: []FieldDesc{{Name: "V", Type: TypeDesc{Kind: "int"}}}}
+			}
+			pt := TypeDesc{Kind: "ptr", Elem: &base}
+			if rapid.IntRange(0, 3).Draw(t, "optptr2") == 0 {
+				inner := pt
+				pt = TypeDesc{Kind: "ptr", Elem: &inner}
+			}
+			f.Type = pt
+			f.Tag = `struct:"` + rapid.SampledFrom([]string{",omitempty", "o,omitempty", ""}).Draw(t, "optptrtag") + `"`
+		} else if g.cfg.Pool && g.cfg.Tags && rapid.IntRange(0, 9).Draw(t, "zeroer") == 0 {
 			// IsZeroer types (value and pointer receiver, by value and by
 			// pointer) are what omitempty consults: make them common
 			zt := TypeDesc{Kind: "pool", Pool: rapid.SampledFrom([]string{"ZeroVal", "ZeroPtr"}).Draw(t, "zeroert")}
